@@ -28,7 +28,8 @@ def qs_quantized_bits : QSpec :=
       ("post_training_scale", .none)],
     emits := ["bits", "integer", "symmetric", "alpha", "keep_negative", "use_stochastic_rounding", "scale_axis", "qnoise_factor", "use_ste", "elements_per_scale", "min_po2_exponent", "max_po2_exponent", "post_training_scale"],
     extra := [],
-    trainable := 2 }
+    trainable := 2,
+    tolist := ["post_training_scale"] }
 
 def qs_bernoulli : QSpec :=
   { name := "bernoulli",
@@ -37,7 +38,8 @@ def qs_bernoulli : QSpec :=
       ("use_real_sigmoid", (.bool true))],
     emits := ["alpha", "temperature", "use_real_sigmoid"],
     extra := [],
-    trainable := 1 }
+    trainable := 1,
+    tolist := [] }
 
 def qs_stochastic_ternary : QSpec :=
   { name := "stochastic_ternary",
@@ -48,7 +50,8 @@ def qs_stochastic_ternary : QSpec :=
       ("number_of_unrolls", (.num (5 : Rat)))],
     emits := ["alpha", "threshold", "temperature", "use_real_sigmoid", "number_of_unrolls"],
     extra := [],
-    trainable := 1 }
+    trainable := 1,
+    tolist := [] }
 
 def qs_ternary : QSpec :=
   { name := "ternary",
@@ -58,7 +61,8 @@ def qs_ternary : QSpec :=
       ("number_of_unrolls", (.num (5 : Rat)))],
     emits := ["alpha", "threshold", "use_stochastic_rounding", "number_of_unrolls"],
     extra := [],
-    trainable := 1 }
+    trainable := 1,
+    tolist := [] }
 
 def qs_stochastic_binary : QSpec :=
   { name := "stochastic_binary",
@@ -67,7 +71,8 @@ def qs_stochastic_binary : QSpec :=
       ("use_real_sigmoid", (.bool true))],
     emits := ["alpha", "temperature", "use_real_sigmoid"],
     extra := [],
-    trainable := 1 }
+    trainable := 1,
+    tolist := [] }
 
 def qs_binary : QSpec :=
   { name := "binary",
@@ -80,7 +85,8 @@ def qs_binary : QSpec :=
       ("max_po2_exponent", .none)],
     emits := ["use_01", "alpha", "use_stochastic_rounding", "scale_axis", "elements_per_scale", "min_po2_exponent", "max_po2_exponent"],
     extra := [],
-    trainable := 1 }
+    trainable := 1,
+    tolist := [] }
 
 def qs_quantized_relu : QSpec :=
   { name := "quantized_relu",
@@ -97,7 +103,8 @@ def qs_quantized_relu : QSpec :=
       ("use_variables", (.bool false))],
     emits := ["bits", "integer", "use_sigmoid", "negative_slope", "use_stochastic_rounding", "relu_upper_bound", "is_quantized_clip", "qnoise_factor", "use_ste"],
     extra := [],
-    trainable := 0 }
+    trainable := 0,
+    tolist := [] }
 
 def qs_quantized_ulaw : QSpec :=
   { name := "quantized_ulaw",
@@ -107,7 +114,8 @@ def qs_quantized_ulaw : QSpec :=
       ("u", (.num (255 : Rat)))],
     emits := ["bits", "integer", "symmetric", "u"],
     extra := [],
-    trainable := 0 }
+    trainable := 0,
+    tolist := [] }
 
 def qs_quantized_tanh : QSpec :=
   { name := "quantized_tanh",
@@ -117,7 +125,8 @@ def qs_quantized_tanh : QSpec :=
       ("use_real_tanh", (.bool false))],
     emits := ["bits", "symmetric", "use_stochastic_rounding", "use_real_tanh"],
     extra := [],
-    trainable := 0 }
+    trainable := 0,
+    tolist := [] }
 
 def qs_quantized_sigmoid : QSpec :=
   { name := "quantized_sigmoid",
@@ -127,7 +136,8 @@ def qs_quantized_sigmoid : QSpec :=
       ("use_stochastic_rounding", (.bool false))],
     emits := ["bits", "symmetric", "use_real_sigmoid", "use_stochastic_rounding"],
     extra := [],
-    trainable := 0 }
+    trainable := 0,
+    tolist := [] }
 
 def qs_quantized_po2 : QSpec :=
   { name := "quantized_po2",
@@ -142,7 +152,8 @@ def qs_quantized_po2 : QSpec :=
       ("use_variables", (.bool false))],
     emits := ["bits", "max_value", "use_stochastic_rounding", "quadratic_approximation", "qnoise_factor", "log2_rounding", "use_ste"],
     extra := [],
-    trainable := 0 }
+    trainable := 0,
+    tolist := [] }
 
 def qs_quantized_relu_po2 : QSpec :=
   { name := "quantized_relu_po2",
@@ -158,7 +169,8 @@ def qs_quantized_relu_po2 : QSpec :=
       ("use_variables", (.bool false))],
     emits := ["bits", "max_value", "negative_slope", "use_stochastic_rounding", "quadratic_approximation", "qnoise_factor", "log2_rounding", "use_ste"],
     extra := [],
-    trainable := 0 }
+    trainable := 0,
+    tolist := [] }
 
 def qs_quantized_linear : QSpec :=
   { name := "quantized_linear",
@@ -174,7 +186,8 @@ def qs_quantized_linear : QSpec :=
       ("use_variables", (.bool false))],
     emits := ["bits", "integer", "symmetric", "alpha", "keep_negative", "use_stochastic_rounding", "scale_axis", "qnoise_factor"],
     extra := [],
-    trainable := 2 }
+    trainable := 2,
+    tolist := [] }
 
 def qs_quantized_hswish : QSpec :=
   { name := "quantized_hswish",
@@ -191,7 +204,8 @@ def qs_quantized_hswish : QSpec :=
       ("relu_upper_bound", (.num (6 : Rat)))],
     emits := ["bits", "integer", "symmetric", "alpha", "use_stochastic_rounding", "scale_axis", "qnoise_factor", "relu_shift", "relu_upper_bound"],
     extra := [],
-    trainable := 2 }
+    trainable := 2,
+    tolist := [] }
 
 def qSpecs : List QSpec :=
   [qs_quantized_bits, qs_bernoulli, qs_stochastic_ternary, qs_ternary, qs_stochastic_binary, qs_binary, qs_quantized_relu, qs_quantized_ulaw, qs_quantized_tanh, qs_quantized_sigmoid, qs_quantized_po2, qs_quantized_relu_po2, qs_quantized_linear, qs_quantized_hswish]
@@ -637,7 +651,10 @@ def ls_QConv2DBatchnorm : LSpec :=
       ⟨"virtual_batch_size", .lit, (.lit .none), false, false, false⟩,
       ⟨"adjustment", .lit, (.lit .none), false, false, false⟩,
       ⟨"ema_freeze_delay", .lit, (.lit .none), false, true, false⟩,
-      ⟨"folding_mode", .lit, (.lit (.str "ema_stats_folding")), false, true, false⟩],
+      ⟨"folding_mode", .lit, (.lit (.str "ema_stats_folding")), false, true, false⟩,
+      ⟨"kernel_range", .lit, (.lit .none), false, true, false⟩,
+      ⟨"bias_range", .lit, (.lit .none), false, true, false⟩,
+      ⟨"mask", .mask, (.lit .none), false, true, false⟩],
     noneIsLinear := true,
     hook := 0 }
 
@@ -730,9 +747,14 @@ def lSpecs : List LSpec :=
 def customObjects : List String :=
   ["QInitializer", "QDense", "QConv1D", "QConv2D", "QConv2DTranspose", "QSimpleRNNCell", "QSimpleRNN", "QLSTMCell", "QLSTM", "QGRUCell", "QGRU", "QBidirectional", "QDepthwiseConv2D", "QSeparableConv1D", "QSeparableConv2D", "QActivation", "QAdaptiveActivation", "QBatchNormalization", "Clip", "quantized_bits", "bernoulli", "stochastic_ternary", "ternary", "stochastic_binary", "binary", "quantized_relu", "quantized_ulaw", "quantized_tanh", "quantized_sigmoid", "quantized_po2", "quantized_relu_po2", "quantized_linear", "quantized_hswish", "QConv2DBatchnorm", "QDepthwiseConv2DBatchnorm", "QAveragePooling2D", "QGlobalAveragePooling2D", "QScaleShift"]
 
+/-- the built-in activation names of Keras (public functions of `tf.keras.activations`) -/
+def kerasActivationNames : List String :=
+  ["elu", "exponential", "gelu", "hard_sigmoid", "linear", "mish", "relu", "selu", "sigmoid", "softmax", "softplus", "softsign", "swish", "tanh"]
+
 /-- the environment of the real library; `clipBound` stays a parameter -/
 def env (clipBound : QVal → PyVal) : Env :=
-  { qspecs := qSpecs, lspecs := lSpecs, customObjects := customObjects, clipBound := clipBound }
+  { qspecs := qSpecs, lspecs := lSpecs, customObjects := customObjects, clipBound := clipBound,
+    kerasNames := kerasActivationNames }
 
 end QKV.LC
 
